@@ -256,7 +256,10 @@ SumEntryBad(g, lvl, a, b, e, wide) ==
         k == A[1]
         full == k = b - a
     IN IF k = 0 THEN FALSE                                   \* nothing written there (all fill): NaN or anything
-       ELSE IF lvl > 1 /\ ~full THEN FALSE                    \* upper levels with something missing: approximate by design
+       \* upper levels with something missing: the mean is an unweighted average of the sub-entries (approximate by
+       \* design); the extremes are still those of the samples that exist, and nothing is NaN
+       ELSE IF lvl > 1 /\ ~full THEN
+            e.nan[1] # 0 \/ e.nan[3] # 0 \/ e.nan[4] # 0 \/ e.mn.k # "i" \/ e.mn.v # A[4] \/ e.mx.k # "i" \/ e.mx.v # A[5]
        ELSE IF e.nan # <<0, 0, 0, 0>> THEN TRUE
        ELSE IF e.mn.k # "i" \/ e.mn.v # A[4] \/ e.mx.k # "i" \/ e.mx.v # A[5] THEN TRUE
        \* mean = sum / count: |m1000 * k - 1000 * S| within rounding (k + relative precision)
@@ -295,6 +298,9 @@ TicksPerSample(rate) == CASE rate = 1073741824 -> <<1, 1>>
                           [] rate = 16777216 -> <<64, 1>>
                           [] rate = 1048576 -> <<1024, 1>>
                           [] rate = 1000000000 -> <<2097152, 1953125>>
+                          [] rate = 1000000 -> <<16777216, 15625>>
+                          [] rate = 48000 -> <<8388608, 375>>
+                          [] rate = 1000 -> <<134217728, 125>>
                           [] OTHER -> <<0, 0>>
 Swap(A) == [i \in 1..Len(A) |-> <<A[i][2], A[i][1]>>]
 StrictlyIncreasing(A) == \A i \in 2..Len(A) : A[i][1] > A[i-1][1]
@@ -320,7 +326,7 @@ T2IVerdict(S, ev) ==
              tps == TicksPerSample(g.rate)
              v == ConvVerdict(g, Swap(g.utcs), ev.t, ev.res, ev.rc, <<tps[2], tps[1]>>, g.t2i)
          IN IF v # "" THEN v
-            ELSE IF ev.rc = 0 /\ \E p \in g.i2t : p[2] = ev.t /\ Abs(p[1] - ev.res) > 1
+            ELSE IF ev.rc = 0 /\ \E p \in g.i2t : p[2] = ev.t /\ (Huge(ev.res) \/ Abs(p[1] - ev.res) > 1)
                  THEN "time -> sample id is not the inverse of sample id -> time within one sample"
             ELSE ""
 
